@@ -21,7 +21,7 @@ def run(tier, rep):
     res2, d2 = dxlib.run_dx('plain', wcfg, 'c03w', 'A,B1' if tier == 'quick' else 'A,B1', 'ref,inv', api='generator', deadline=deadline)
     acc2 = [r for r in res2 if 'crashed' in r or r['port_err'] == 0]
     c01.aggregate(rep, acc + acc2, False, ('c03',), 'generator',
-                  'every accepted (isotope, level, mode) of the complete grid plus nested window chains [0,e0+] > [0.2,0.9]e0 > [0.4,0.7]e0 > [0.5,0.6]e0 on '
+                  'every accepted (isotope, level, mode) of the complete grid plus nested window chains [0,e0+] > [0.2,0.9]e0 > [0.4,0.7]e0 > [0.5,0.6]e0 and the one-sided windows [0.5e0,-], [-,0.5e0] on '
                   'every window-capable configuration, driven through decay0_generator; layers %s; on every execution: visible energy vs Q '
                   '(equal within 3 keV for neutrinoless modes, never above otherwise; primary particles only for the four alpha-chain entries), '
                   'lepton energy sum inside the window; per configuration toallevents >= 1, = 1 for the full range, monotone along the chain' % layers)
@@ -31,6 +31,10 @@ def run(tier, rep):
         if 'crashed' in r:
             continue
         c = r['config']
+        if c['e1'] < 0 or c['e2'] < 0:
+            if not (r['toall_port'] >= 1 - 1e-9):
+                rep.violation('dbd:%s:l%d:m%d:toallevents-onesided' % (c['name'], c['level'], c['mode']), 'toallevents=%g < 1 for the one-sided window [%g,%g]' % (r['toall_port'], c['e1'], c['e2']))
+            continue
         chains.setdefault((c['name'], c['level'], c['mode']), []).append((c['e2'] - c['e1'], c['e1'], c['e2'], r['toall_port']))
     nchain = 0
     for k, lst in chains.items():
